@@ -408,6 +408,88 @@ def string_case(args) -> dict:
     return out
 
 
+def twins_case(args) -> dict:
+    """Values in ONE shard that are equal under == (or both NaN) but not
+    bit-identical: signs of zeros, NaN payloads; and exact repeats."""
+    fmt, comp = args
+    root = core.fresh_dir("c01T")
+    out = {"args": list(args), "bad": [], "cells": 0, "rejected": 0,
+           "unsupported": 0, "harness": None}
+    try:
+        from sedpack.io import Dataset, Metadata
+        from sedpack.io.metadata import Attribute, DatasetStructure
+        fdt = ["float32", "float16"] + ([] if fmt == "tfrec" else
+                                        ["float64"])
+        attrs = [Attribute(name="tag", dtype="int32", shape=(2,))]
+        for d in fdt:
+            attrs += [Attribute(name=f"{d}_v", dtype=d, shape=(3,)),
+                      Attribute(name=f"{d}_s", dtype=d, shape=())]
+        ds_ = Dataset.create(
+            path=root, metadata=Metadata(),
+            dataset_structure=DatasetStructure(
+                saved_data_description=attrs, compression=comp,
+                examples_per_shard=16, shard_file_type=fmt,
+                hash_checksum_algorithms=("md5",)))
+
+        def qnan(d, payload):
+            u = {"float16": np.uint16, "float32": np.uint32,
+                 "float64": np.uint64}[d]
+            base = {"float16": 0x7e00, "float32": 0x7fc00000,
+                    "float64": 0x7ff8000000000000}[d]
+            return np.array([base | payload], dtype=u).view(d)[0]
+
+        rows = []
+        for k in range(8):
+            ex = {"tag": np.array([7, 7], dtype=np.int32)}  # exact repeat
+            for d in fdt:
+                z, nz = np.array(0.0, d), np.array(-0.0, d)
+                one = np.array(1.5, d)
+                vec = {0: [z, one, nz], 1: [nz, one, z], 2: [z, one, nz],
+                       3: [qnan(d, 1), one, z], 4: [qnan(d, 2), one, z],
+                       5: [nz, one, nz], 6: [z, one, z],
+                       7: [qnan(d, 1), one, z]}[k]
+                ex[f"{d}_v"] = np.array(vec, dtype=d)
+                ex[f"{d}_s"] = np.array([z, nz, z, qnan(d, 1), qnan(d, 3),
+                                         nz, nz, z][k], dtype=d)
+            rows.append(ex)
+        with ds_.filler() as f:
+            for ex in rows:
+                f.write_example(values=ex, split="train")
+        ds_ = Dataset(root)
+        for iface, got in read_all(ds_, fmt, comp, "quick").items():
+            if isinstance(got, str):
+                out["bad"].append(("twins", iface,
+                                   f"{fmt}/{comp or 'none'} near-duplicate "
+                                   f"values: reader {iface} fails: {got}"))
+                continue
+            if len(got) != len(rows):
+                out["bad"].append(("count", iface,
+                                   f"{fmt}/{comp or 'none'} near-duplicate "
+                                   f"values: {len(got)} of {len(rows)}"))
+                continue
+            for k, (w, g) in enumerate(zip(rows, got)):
+                for a in attrs:
+                    if a.dtype == "int32":
+                        continue
+                    out["cells"] += 1
+                    wb = norm(w[a.name], a.dtype)
+                    gb = norm(np.asarray(g[a.name]), a.dtype)
+                    if wb != gb:
+                        out["bad"].append(
+                            ("twins", iface,
+                             f"{fmt}/{comp or 'none'} attribute {a.name}: "
+                             f"example {k} of a shard of near-duplicates "
+                             f"(signed zeros / NaN payloads) reads back as "
+                             f"bits {gb.hex()} for written {wb.hex()} "
+                             f"(reader {iface})"))
+    except Exception as e:  # pylint: disable=broad-except
+        out["harness"] = f"{type(e).__name__}: {e} " + traceback.format_exc(
+        )[-400:]
+    finally:
+        shutil.rmtree(root, ignore_errors=True)
+    return out
+
+
 def large_case(args) -> dict:
     """One shard of more than 16 MiB (size thresholds of codecs, buffers and
     chunked I/O): 5 examples of float32 (1024, 1024) + a scalar label."""
@@ -501,8 +583,12 @@ def run(ctx):
             COMP["fb"] if thorough else ("", "LZ4", "ZSTD", "GZIP"))]
         if thorough:
             large += [("npz", "ZIP", seed), ("tfrec", "GZIP", seed)]
+        twins = [(f, c) for f in ("fb", "npz", "tfrec")
+                 for c in (COMP[f] if thorough else COMP[f][:2])]
         for name, fn, tasks in (("numeric layouts", numeric_case, num),
                                 ("one 20 MiB shard", large_case, large),
+                                ("near-duplicate values in one shard",
+                                 twins_case, twins),
                                 ("all 8/16-bit values", allvalues_case,
                                  allv),
                                 ("tfrec str/bytes", string_case, strs)):
@@ -558,6 +644,8 @@ def replay(case):
         r = numeric_case(tuple(a))
     elif k == "one 20 MiB shard":
         r = large_case(tuple(a))
+    elif k == "near-duplicate values in one shard":
+        r = twins_case(tuple(a))
     elif k == "all 8/16-bit values":
         r = allvalues_case(tuple(a))
     else:
